@@ -742,6 +742,13 @@ def replay_m(path):
     d = json.load(open(path))
     if d.get('kind') == 'eval_impl':
         return replay_eval_impl(path)
+    if d.get('kind') == 'filter':
+        err = build_tool('render')
+        inp = '\n'.join(json.dumps(q) for q in d['requests']) + '\n'
+        p = subprocess.run([os.path.join(BUILD, 'native', 'debug', 'render')], input=inp, stdout=subprocess.PIPE, stderr=subprocess.PIPE, text=True, timeout=120)
+        outs = [json.loads(l) for l in p.stdout.split('\n') if l.strip()]
+        print(json.dumps(outs))
+        return any(o.get('ok') != 'True|False' for o in outs)
     if d.get('kind') == 'binop':
         err = build_tool('folding')
         if err:
@@ -1312,5 +1319,111 @@ def run_emit(prop, tier, seed):
         ev['problems'].append('engine M: native print scenario %s misbehaves (%s) although the Emit arm always goes through write_escaped / the formatter' % (failing[0]['scenario'], failing[0]['detail'][:200]))
     log('[%s] engine M (eval_impl Emit arm): %s; %d native scenarios, %d misbehaving' % (prop, ' '.join('%s=%s' % (r['op'], r['verdict']) for r in results), len(scen), len(failing)))
     ev['coverage'] = dict(queries=len(results), results=results, native_scenarios=len(scen), native_scenarios_failing=len(failing), function='Executor::eval_impl', check='emit_escapes')
+    ev['wall_s'] = round(time.time() - t0, 1)
+    return ev
+
+
+# ---------------------------------------------------------------------------------------------
+# string filters (C02): a filter that hands its result back through StringInput::preserve_safety does so on
+# EVERY successful path (an early return must not lose the safe flag and cause a second escaping)
+# ---------------------------------------------------------------------------------------------
+def check_filter_preserves_safety(fn):
+    adj, preds = cfg(fn)
+    s_ = z3.Solver()
+    s_.set('timeout', 30000)
+    D = {b: z3.Int('Z_%s' % b) for b in fn['blocks'] if not fn['blocks'][b]['cleanup']}
+    s_.add(D['bb0'] == 0)
+    n = calls = exits = 0
+    for bid, blk in fn['blocks'].items():
+        if blk['cleanup']:
+            continue
+        dst, callee = call_of(blk['term'])
+        is_ps = bool(callee and re.search(r'StringInput::<[^>]*>::preserve_safety\(', callee))
+        calls += is_ps
+        sets_ok = any(re.match(r'_0 = (Result::<value::Value, .*>::Ok\(|value::Value::|<value::Value as From)', st) for st in blk['stmts'])
+        ret_call = bool(dst == '_0' and callee and not is_ps)
+        if sets_ok or ret_call:
+            # a successful result that is not the product of preserve_safety: only fine if the flag was carried before
+            s_.add(D[bid] == 1)
+            exits += 1
+        if any(re.match(r'_0 = ', st) for st in blk['stmts']):
+            continue
+        for label, tgt in adj[bid]:
+            if fn['blocks'][tgt]['term'] == 'return;':
+                continue
+            if label == 'ok' and is_ps:
+                s_.add(D[tgt] == 1)
+            else:
+                s_.add(D[tgt] == D[bid])
+            n += 1
+    t0 = time.time()
+    r = s_.check()
+    dt = time.time() - t0
+    stats = dict(blocks=len(D), edges=n, preserve_calls=calls, other_success_exits=exits)
+    if r == z3.sat:
+        return 'sat', None, dt, stats
+    if r != z3.unsat:
+        return str(r), None, dt, stats
+    return 'unsat', dict(kind='a successful return is reachable on a path that did not go through preserve_safety'), dt, stats
+
+
+FILTER_ARGS = {'upper': [''], 'lower': [''], 'capitalize': [''], 'trim': ['', '("x")'], 'indent': ['(0)', '(2)', '(0, true)', '(3, true, true)']}
+
+
+def run_filters(prop, tier, seed):
+    t0 = time.time()
+    ev = dict(engine='M', violations=[], known_hits=[], problems=[], coverage={})
+    try:
+        mir = dump_mir(REPO, os.path.join(BUILD, 'mir'))
+    except MirError as e:
+        ev['problems'].append('engine M: %s' % e)
+        return ev
+    results = []
+    for m in re.finditer(r'^fn filters::builtins::(\w+)\(', mir, re.M):
+        text = function_text(mir, r'^fn filters::builtins::%s\(' % m.group(1))
+        if text is None or 'preserve_safety(' not in text:
+            continue
+        verdict, info, dt, stats = check_filter_preserves_safety(parse_function(text))
+        results.append(dict(function='filters::' + m.group(1), filter=m.group(1), verdict=verdict, z3_s=round(dt, 3), conflict=(info or {}).get('kind'), **stats))
+    if not results:
+        ev['problems'].append('engine M: no filter calling preserve_safety found in the MIR dump')
+        return ev
+    err = build_tool('render')
+    if err:
+        ev['problems'].append('engine M: render tool did not build')
+        return ev
+    # native: the filter applied to a SAFE string must give a safe string (and to an unsafe one an unsafe one)
+    reqs, keys = [], []
+    for r in results:
+        for args in FILTER_ARGS.get(r['filter'], ['']):
+            reqs.append(dict(src='{{ (s|safe|%s%s) is safe }}|{{ (s|%s%s) is safe }}' % (r['filter'], args, r['filter'], args), ctx={'s': ' a<b\n c '}))
+            keys.append((r['filter'], args))
+    inp = '\n'.join(json.dumps(q) for q in reqs) + '\n'
+    p = subprocess.run([os.path.join(BUILD, 'native', 'debug', 'render')], input=inp, stdout=subprocess.PIPE, stderr=subprocess.PIPE, text=True, timeout=120)
+    outs = [json.loads(l) for l in p.stdout.split('\n') if l.strip()]
+    bad = {}
+    for (f, args), o in zip(keys, outs):
+        if o.get('ok') != 'True|False':
+            bad.setdefault(f, []).append('s|%s%s: (safe input is safe)|(unsafe input is safe) = %s' % (f, args, o.get('ok', o)))
+    for r in results:
+        if r['verdict'] == 'sat':
+            continue
+        if r['verdict'] != 'unsat':
+            ev['problems'].append('engine M: %s: %s' % (r['function'], r['verdict']))
+            continue
+        if r['filter'] in bad:
+            rp = os.path.join(nativelib.replay_dir(), '%s-M-filter-%s.json' % (prop, r['filter']))
+            json.dump(dict(engine='M', kind='filter', property=prop, mir_finding=r, requests=[q for q, k in zip(reqs, keys) if k[0] == r['filter']],
+                           how='bin/check %s --replay %s' % (prop, rp)), open(rp, 'w'), indent=1)
+            ev['violations'].append(dict(replay=rp, failed=[dict(desc='%s: %s; natively: %s' % (r['function'], r['conflict'], bad[r['filter']][0]),
+                                                                 loc='minijinja/src/filters.rs %s (MIR)' % r['filter'])]))
+        else:
+            ev['problems'].append('engine M: %s: %s, but the filter keeps the safe flag for all tried arguments' % (r['function'], r['conflict']))
+    for f, msgs in bad.items():
+        if all(r['verdict'] == 'sat' for r in results if r['filter'] == f):
+            ev['problems'].append('engine M: filter %s loses or invents the safe flag natively (%s) although every path goes through preserve_safety' % (f, msgs[0]))
+    log('[%s] engine M (filters preserve safety): %s; native: %d renders, %d filters misbehaving' % (
+        prop, ' '.join('%s=%s' % (r['filter'], r['verdict']) for r in results), len(outs), len(bad)))
+    ev['coverage'] = dict(queries=len(results), results=results, native_scenarios=len(outs), native_scenarios_failing=len(bad), check='filters_preserve_safety')
     ev['wall_s'] = round(time.time() - t0, 1)
     return ev
